@@ -90,7 +90,7 @@ def main():
     undecided = []
     assumptions = set()
     stats_tot = dict(verbatim_lines=0, added_lines=0, R1=0, R2=0, R4=0, R7=0, R10=0, declared_rewrites=0,
-                     silent_obligations=0, trusted_fns=0)
+                     silent_obligations=0, trusted_fns=0, assumes=0, R6=0)
     per_unit = []
     sources = []
     for r in results:
